@@ -1,11 +1,16 @@
 package main
 
 import (
+	"encoding/json"
 	"fmt"
 	"os"
 	"path/filepath"
+	"strconv"
+	"strings"
 
+	"verif/internal/gensim"
 	"verif/internal/pipeline"
+	"verif/internal/simbuild"
 	"verif/spec"
 )
 
@@ -23,6 +28,19 @@ func main() {
 		pipeline.GogoMain()
 	case "gen":
 		cmdGen(os.Args[2:])
+	case "check":
+		cmdCheck(os.Args[2:])
+	case "replay":
+		cmdReplay(os.Args[2:])
+	case "simbuild":
+		dir := os.Args[2]
+		os.MkdirAll(dir, 0o755)
+		ins, err := simbuild.Build(dir)
+		if err != nil {
+			die(2, "%v", err)
+		}
+		b, _ := json.MarshalIndent(ins.Reports, "", " ")
+		fmt.Println(string(b))
 	default:
 		die(2, "unknown subcommand %s", os.Args[1])
 	}
@@ -55,4 +73,93 @@ func cmdGen(args []string) {
 	os.WriteFile(filepath.Join(dir, "casts.go"), g.Casts, 0o644)
 	os.WriteFile(filepath.Join(dir, "plugin.stderr"), g.Stderr, 0o644)
 	fmt.Println("ok", len(g.Terraform), len(g.PB))
+}
+
+var verifRoot = func() string {
+	if v := os.Getenv("VERIF_ROOT"); v != "" {
+		return v
+	}
+	return "/verif"
+}()
+
+func seedFromEnv(def uint64) uint64 {
+	if v := os.Getenv("VERIF_SEED"); v != "" {
+		if n, err := strconv.ParseUint(v, 10, 64); err == nil {
+			return n
+		}
+		if n, err := strconv.ParseInt(v, 10, 64); err == nil {
+			return uint64(n)
+		}
+	}
+	return def
+}
+
+func exitFor(err error) {
+	// build trouble, watchdog, harness invariant: exit 2, never a VIOLATION line
+	fmt.Fprintf(os.Stderr, "verif: cannot decide: %v\n", err)
+	os.Exit(2)
+}
+
+func cmdCheck(args []string) {
+	if len(args) < 2 {
+		die(2, "usage: verif check <id> <quick|thorough>")
+	}
+	id, tier := args[0], args[1]
+	if t := os.Getenv("VERIF_TIER"); t == "quick" || t == "thorough" {
+		tier = t
+	}
+	seed := seedFromEnv(20261002)
+	fmt.Printf("VERIF_SEED=%d property=%s tier=%s\n", seed, id, tier)
+	switch id {
+	case "C14", "C16", "C18":
+		res, err := gensim.Check(verifRoot, id, tier, seed)
+		if err != nil {
+			exitFor(err)
+		}
+		if err := gensim.WriteEvidence(verifRoot, res.Evidence); err != nil {
+			exitFor(err)
+		}
+		fmt.Printf("cases=%v distinct=%v child_runs=%v wall=%.1fs violations=%d\n", res.Evidence.Coverage["evaluations"],
+			res.Evidence.Coverage["distinct_nontrivial"], res.Evidence.Coverage["child_process_runs"], res.Evidence.WallS, res.Evidence.Violations)
+		if len(res.Violations) > 0 {
+			for i, v := range res.Violations {
+				fmt.Printf("violation clause=%s: %s\n", v.Clause, strings.Join(v.Failures, "; "))
+				fmt.Printf("VIOLATION property=%s replay=%s\n", id, res.Replays[i])
+			}
+			os.Exit(1)
+		}
+		fmt.Printf("OK property=%s held on everything explored\n", id)
+	default:
+		die(2, "no check for %s", id)
+	}
+}
+
+func cmdReplay(args []string) {
+	if len(args) != 1 {
+		die(2, "usage: verif replay <file>")
+	}
+	b, err := os.ReadFile(args[0])
+	if err != nil {
+		die(2, "%v", err)
+	}
+	var head struct {
+		Property string `json:"property"`
+		Engine   string `json:"engine"`
+	}
+	json.Unmarshal(b, &head)
+	switch head.Property {
+	case "C14", "C16", "C18":
+		c, fails, err := gensim.Replay(args[0])
+		if err != nil {
+			exitFor(err)
+		}
+		if len(fails) > 0 {
+			fmt.Printf("replayed clause=%s: %s\n", c.Clause, strings.Join(fails, "; "))
+			fmt.Printf("VIOLATION property=%s replay=%s\n", head.Property, args[0])
+			os.Exit(1)
+		}
+		fmt.Printf("replay of %s: no violation on the current tree\n", args[0])
+	default:
+		die(2, "unknown replay property %q", head.Property)
+	}
 }
